@@ -88,7 +88,12 @@ def fam_grid(ctx, rng):
         frame = G.rational_frame(rng); o = G.rpt3(rng, 50)
         nh = rng.choice([0, 0, 1])
         hs = G.holes_in(rng, b, nh) if nh else []
-        face = Face3D([P3(G.embed(frame, o, p)) for p in b], holes=[[P3(G.embed(frame, o, p)) for p in h] for h in hs] or None)
+        upl = None
+        if rng.random() < 0.4:
+            # a base plane of the user's choosing: its x axis turned about the normal (not the default axis of that normal)
+            c_, s_, _ = G.pythagorean_angle(rng); c_, s_ = float(c_), float(s_)
+            upl = Plane(V3(frame[2]), P3(G.embed(frame, o, b[0])), V3(tuple(c_ * frame[0][i] + s_ * frame[1][i] for i in range(3))))
+        face = Face3D([P3(G.embed(frame, o, p)) for p in b], upl, holes=[[P3(G.embed(frame, o, p)) for p in h] for h in hs] or None)
         try:
             m = face.mesh_grid(cx, cy, off, fl, gc)
         except AssertionError:
